@@ -197,7 +197,8 @@ theorem C17_inherited_default_head (kw : Bool) (inh : String → Option Val) (s 
 
 /-- **C17 (substitution, unfolding).** `substTy σ` replaces exactly the type variables `σ` binds
 (an unbound variable stays) and descends through `seq`, `tupleFixed`, `mapping`, `union`, `annotated`,
-`tupleLit` and the arguments of a subscripted dataclass `cls name args` (D26); a union is re-flattened (one level), de-duplicated, and collapses to its member when only
+`tupleLit`, the arguments of a subscripted dataclass `cls name args` (D26) and the values of a struct type
+literal (`C17_subst_structLit`); a union is re-flattened (one level), de-duplicated, and collapses to its member when only
 one is left. -/
 theorem C17_subst (σ : List (String × Ty)) :
     (∀ n b cs t, σ.lookup n = some t → substTy σ (.typeVar n b cs) = t) ∧
@@ -218,17 +219,32 @@ theorem C17_subst (σ : List (String × Ty)) :
   · intro ts; rw [c17_subst_tupleLit, c17_substTys_eq_map]
   · intro n as; rw [c17_subst_cls, c17_substTys_eq_map]
 
-/-- every other type constructor is left alone (none of them carries type arguments, except `structLit`,
-a TypedDict-like literal whose member types are fixed when it is written) -/
+/-- **C17 (substitution, struct type literals).** A field type that is a struct type literal
+`{'a': T, 'b': List[T]}` has its VALUES substituted; the keys (strings) are untouched.  (Before the repair
+of `replace_typevars` a dict was returned unchanged, so `T` survived `Cls[int]` inside a struct literal.) -/
+theorem C17_subst_structLit (σ : List (String × Ty)) (names : List String) (ts : List Ty) :
+    substTy σ (.structLit names ts) = .structLit names (ts.map (substTy σ)) := by
+  rw [c17_subst_structLit, c17_substTys_eq_map]
+
+-- `{'a': T}` under `T ↦ int` is `{'a': int}`; the key is kept, a variable that is not bound stays
+example : substTy [("T", .scalar "int")] (.structLit ["a"] [.typeVar "T" none []]) =
+    .structLit ["a"] [.scalar "int"] := by
+  rw [C17_subst_structLit]; simp [substTy, List.lookup]
+example : substTy [("T", .scalar "int")]
+    (.structLit ["a", "b"] [.typeVar "T" none [], .seq "list" (some (.typeVar "U" none []))]) =
+    .structLit ["a", "b"] [.scalar "int", .seq "list" (some (.typeVar "U" none []))] := by
+  rw [C17_subst_structLit]; simp [substTy, List.lookup]
+
+/-- every other type constructor is left alone: none of them carries type arguments (`structLit`, which
+does, is `C17_subst_structLit`) -/
 theorem C17_subst_other (σ : List (String × Ty)) :
     substTy σ .any = .any ∧ (∀ n, substTy σ (.scalar n) = .scalar n) ∧
     (∀ o, substTy σ (.seq o none) = .seq o none) ∧ (∀ vs, substTy σ (.literal vs) = .literal vs) ∧
     (∀ n, substTy σ (.enum n) = .enum n) ∧ (∀ n b, substTy σ (.sub n b) = .sub n b) ∧
-    (∀ ns ts, substTy σ (.structLit ns ts) = .structLit ns ts) ∧
     (∀ a, substTy σ (.pattern a) = .pattern a) ∧
     substTy σ .ndarray = .ndarray ∧ (∀ s, substTy σ (.forwardRef s) = .forwardRef s) ∧
     (∀ w, substTy σ (.unsupported w) = .unsupported w) := by
-  refine ⟨?_, ?_, ?_, ?_, ?_, ?_, ?_, ?_, ?_, ?_, ?_⟩ <;> intros <;> simp only [substTy]
+  refine ⟨?_, ?_, ?_, ?_, ?_, ?_, ?_, ?_, ?_, ?_⟩ <;> intros <;> simp only [substTy]
 
 /-- **C17 (substitution, identity).** On a type in typing-normal form (`c17_normalTy`: every union has
 at least two members, none of them a union, pairwise distinct for the test `dedupTy` uses) none of
@@ -331,8 +347,9 @@ theorem C17_parent_subst_applied (d : ClassDeclM) (p : ClassM) (bound : List (St
 /-- **C17 (substitution is complete: "in EVERY field type").** When the images of `σ` mention none of
 the variables `σ` binds (`Cls[int, str]`; a re-parameterisation `Cls[U]` with `U` not one of the class's
 own parameters), no variable bound by `σ` occurs anywhere in `substTy σ t` — under sequences, tuples,
-mappings, unions, annotations AND the arguments of a subscripted dataclass `Other[T]` used as a field
-type.  (This is the statement that fails for the source as it was before the repair D26, where
+mappings, unions, annotations, the arguments of a subscripted dataclass `Other[T]` used as a field
+type AND the values of a struct type literal `{'a': T}` (`c17c_occurs` inspects them: struct literals are
+inside the covered fragment).  (This is the statement that fails for the source as it was before the repair D26, where
 `Other[T]` was left alone: see the `example` below the theorem for the witness that now goes through.) -/
 theorem C17_subst_complete (σ : List (String × Ty)) (hσ : c17c_closed σ) (t : Ty) :
     ∀ m, (σ.lookup m).isSome = true → c17c_occurs m (substTy σ t) = false :=
@@ -365,6 +382,17 @@ example : c17c_closed [("T", .scalar "int")] ∧
     split at hk
     · cases hk; simp [c17c_occurs]
     · cases hk
+
+-- non-vacuity for struct type literals: `{'a': T, 'b': list[T]}` mentions `T`, and loses it
+example : c17c_occurs "T" (.structLit ["a", "b"] [.typeVar "T" none [], .seq "list" (some (.typeVar "T" none []))]) = true ∧
+    c17c_occurs "T" (substTy [("T", .scalar "int")]
+      (.structLit ["a", "b"] [.typeVar "T" none [], .seq "list" (some (.typeVar "T" none []))])) = false := by
+  refine ⟨by simp [c17c_occurs, c17c_occurss], C17_subst_complete _ ?_ _ "T" (by simp [List.lookup])⟩
+  intro k u hk m hm
+  simp only [List.lookup] at hk
+  split at hk
+  · cases hk; simp [c17c_occurs]
+  · cases hk
 
 /-- a root class (no parent): the merged specs are the own specs -/
 theorem C17_root_specs (d : ClassDeclM) (bound : List (String × Ty)) (pp : List String) (c : ClassM)
@@ -905,6 +933,7 @@ example : ∀ o', ({ classHandlers := [⟨[("int", "conv")], true⟩] } : Opts).
 #print axioms C17_inherited_default_head
 #print axioms C17_subst
 #print axioms C17_subst_other
+#print axioms C17_subst_structLit
 #print axioms C17_subst_id
 #print axioms C17_subst_id_unionFree
 #print axioms C17_subst_nil_counterexamples
